@@ -131,8 +131,8 @@ class NumpySerializedListC(ClassContract):
     def view(self, eng, st):
         return None
     methods = {
-        '__getitem__': [Variant('int', params={'idx': 'int'}, post=_getitem_post, hooks=_hooks(), props=('C02', 'C09'),
-                                inline=('__getitem__', '__len__'))],
+        '__getitem__': [Variant('int' if k_ == 'int' else 'int:' + k_, params={'idx': k_}, post=_getitem_post, hooks=_hooks(),
+                                props=('C02', 'C09'), inline=('__getitem__', '__len__')) for k_ in ('int', 'np.int8', 'np.uint8')],
         '__len__': [Variant('len', post=lambda S, o: [('C02:len-is-the-number-of-stored-examples',
                                                       z3.And(z3.BoolVal(o.kind == 'return'), o.value.t == S.eng.contract._n)
                                                       if o.kind == 'return' else smt.F)], hooks=_hooks(), props=('C02',),
